@@ -490,7 +490,7 @@ func TestOSFS(t *testing.T)       { run(t, "osfs") }
 func TestSubLenient(t *testing.T) { run(t, "sublenient") }
 
 func TestReplayAll(t *testing.T) {
-	for _, kind := range kinds {
+	for _, kind := range append(append([]string{}, kinds...), "fuzznames") {
 		kind := kind
 		t.Run(kind, func(t *testing.T) {
 			vf.Replay(t, kind, func(steps []json.RawMessage) (string, string) {
